@@ -481,3 +481,52 @@ pub fn h_c05_readers_agree_on_errors() {
     check("C05.readers_errors.value_follows_the_shown_input", (v(1, 4) == Ok(CellValue::Boolean(true))) & (v(3, 4) == Ok(err(e))));
     reach("C05.readers_errors");
 }
+
+/// formulas that read cells filled by a dynamic array, where the reader comes before the anchor in evaluation order
+/// (it is demanded by an earlier dynamic array): after every pass each reader holds the value of the cell it reads
+pub fn h_c05_readers_of_spills() {
+    let layout = any_bool();
+    let mut ws = empty_sheet("Sheet1", 1);
+    let mut model;
+    if layout {
+        // F1:F2 = 10, 20; D1 = F1:F2 (spills D1:D2); C5 = D2+1; A1 = C5:C6 (spills A1:A2, demands C5 before D1 runs)
+        let mut r1: HashMap<i32, Cell> = HashMap::new();
+        r1.insert(6, Cell::NumberCell { v: 10.0, s: 0 });
+        ws.sheet_data.insert(1, r1);
+        let mut r2: HashMap<i32, Cell> = HashMap::new();
+        r2.insert(6, Cell::NumberCell { v: 20.0, s: 0 });
+        ws.sheet_data.insert(2, r2);
+        model = model_from_workbook(workbook_with_cells(vec![ws]));
+        let typed = model.set_user_input(0, 1, 1, "=C5:C6".to_string()).is_ok() && model.set_user_input(0, 5, 3, "=D2+1".to_string()).is_ok()
+            && model.set_user_input(0, 1, 4, "=F1:F2".to_string()).is_ok();
+        check("C05.spill_readers.entered", typed);
+        if !typed { return; }
+        model.evaluate();
+        let v = |m: &Model, r: i32, c: i32| m.get_cell_value_by_index(0, r, c);
+        // KF-C05-3: on the very first pass C5 is demanded (by the dynamic array in A1) before the spill it reads exists,
+        // and holds 1 until the next evaluation
+        check_kf("C05.spill_readers.first_pass_through_a_plain_formula", (v(&model, 2, 4) == Ok(CellValue::Number(20.0))) & (v(&model, 5, 3) == Ok(CellValue::Number(21.0))) & (v(&model, 1, 1) == Ok(CellValue::Number(21.0))), "KF-C05-3", true);
+        model.evaluate();
+        check("C05.spill_readers.second_pass", (v(&model, 2, 4) == Ok(CellValue::Number(20.0))) & (v(&model, 5, 3) == Ok(CellValue::Number(21.0))) & (v(&model, 1, 1) == Ok(CellValue::Number(21.0))));
+        // the input behind the spill changes
+        let n = any_i32_in(30, 31);
+        model.update_cell_with_number(0, 2, 6, n as f64).ok();
+        model.evaluate();
+        check("C05.spill_readers.after_edit", (v(&model, 2, 4) == Ok(CellValue::Number(n as f64))) & (v(&model, 5, 3) == Ok(CellValue::Number(n as f64 + 1.0))) & (v(&model, 1, 1) == Ok(CellValue::Number(n as f64 + 1.0))));
+    } else {
+        // E1:E2 = 1, 2; C1 = E1:E2 (spills C1:C2); A1 = C2:D2 reads the other spill only through its last row
+        let mut r1: HashMap<i32, Cell> = HashMap::new();
+        r1.insert(5, Cell::NumberCell { v: 1.0, s: 0 });
+        ws.sheet_data.insert(1, r1);
+        let mut r2: HashMap<i32, Cell> = HashMap::new();
+        r2.insert(5, Cell::NumberCell { v: 2.0, s: 0 });
+        ws.sheet_data.insert(2, r2);
+        model = model_from_workbook(workbook_with_cells(vec![ws]));
+        let typed = model.set_user_input(0, 1, 1, "=C2:D2".to_string()).is_ok() && model.set_user_input(0, 1, 3, "=E1:E2".to_string()).is_ok();
+        check("C05.spill_readers.entered", typed);
+        if !typed { return; }
+        model.evaluate();
+        check("C05.spill_readers.first_pass", (model.get_cell_value_by_index(0, 2, 3) == Ok(CellValue::Number(2.0))) & (model.get_cell_value_by_index(0, 1, 1) == Ok(CellValue::Number(2.0))));
+    }
+    reach("C05.spill_readers");
+}
